@@ -392,6 +392,7 @@ inductive WritesAfter (req : Req) (key : Str) (stored : Option Entry) : OriginAn
       place): the entry that was read is written back under its id, same status and body -/
   | freshen (r : Resp) (t1 : Int) (b : Bool) (e en : Entry) (ok : Bool) : r.status = 304 → stored = some e →
       clientPreconditionForwarded req.header e.resp.header = false →
+      (parseCC req.header).noStore = false → (parseCC r.header).noStore = false →
       en.resp.status = e.resp.status → en.resp.body = e.resp.body →
       WritesAfter req key stored (.resp r t1 b) [.setEntry e.id en ok]
   /-- a storable full reply: entry (and, if that succeeded, index) -/
@@ -441,8 +442,10 @@ theorem validation_writes (cfg : Cfg) (req : Req) (key : Str) (stored : Entry) (
       simp only [Bool.and_eq_true, decide_eq_true_eq, Bool.not_eq_true'] at h304
       split at h
       · cases h; exact .none _
-      · cases h with
-        | setEntry ok h1 => cases h1; exact .freshen _ _ _ stored _ _ h304.1.2 rfl h304.2 rfl rfl
+      · rename_i hw
+        simp only [Bool.or_eq_true, not_or, Bool.not_eq_true] at hw
+        cases h with
+        | setEntry ok h1 => cases h1; exact .freshen _ _ _ stored _ _ h304.1.2 rfl h304.2 hw.1.2 hw.2 rfl rfl
     · rename_i hn304
       split at h
       · cases h; exact .none _
